@@ -26,6 +26,22 @@ class LocalDefs:
             for r in written_roots(n):
                 if r.startswith("v"):
                     self.writes.setdefault(r, []).append(n)
+        # a write through an iterator / reference obtained from container X is (also) a definition of X
+        self.view_of = {}
+        for d, vd in self.decl.items():
+            t = vd.get("t") or ""
+            if not ("iterator" in t or "Iter" in t or t.rstrip().endswith("&") or t.rstrip().endswith("*")):
+                continue
+            if not vd.c:
+                continue
+            srcs = {m.get("d") for m in vd.c[0].walk() if m.k == "DeclRefExpr" and m.get("dk") in ("local", "param")}
+            if len(srcs) == 1:
+                self.view_of[d] = srcs.pop()
+        for d, x in self.view_of.items():
+            for w in list(self.writes.get("v%d" % d, [])):
+                if w.k in ("UnaryOperator",) or (w.k == "CXXOperatorCallExpr" and w.op in ("++", "--")):
+                    continue
+                self.writes.setdefault("v%d" % x, []).append(w)
 
     def single_def(self, d):
         """initialiser node if local d is defined exactly once (declaration) and never written after"""
